@@ -49,6 +49,11 @@ fn any_number() -> (ManuallyDrop<JsValue>, f64) {
     }
 }
 
+
+// NOTE: a harness discharging the stub's contract against the REAL `JsValue::to_number` on Number operands (with only
+// `to_primitive` cut) was written and measured: it does not finish in 15 min (`variant()` + the string / object arms).
+// The contract of `to_number` on Numbers therefore stays ASSUMED (read off its two match arms).  attempts/to_number.rs
+
 macro_rules! conv_harness {
     ($name:ident, $f:ident, $spec:path) => {
         // FN: JsValue::$f
